@@ -114,9 +114,26 @@ def norm_type(t):
     return t.strip()
 
 
-def find_function(src, qualname, want_types, rel):
+def class_body(src, cls, rel):
+    """text between the braces of `struct|class cls … { … }` (for in-class inline definitions)"""
+    m = re.search(r"\b(?:struct|class)\s+(?:[A-Z_]+\s+)?%s\b[^;{]*\{" % re.escape(cls), src)
+    if not m:
+        raise Refuse("class %s not found in %s" % (cls, rel))
+    j, depth = m.end(), 1
+    while j < len(src) and depth:
+        depth += {"{": 1, "}": -1}.get(src[j], 0)
+        j += 1
+    if depth:
+        raise Refuse("class %s: unbalanced braces in %s" % (cls, rel))
+    return src[m.end():j - 1]
+
+
+def find_function(src, qualname, want_types, rel, cls=None):
     """locate `qualname(params) [const] [noexcept] {` whose normalised parameter types equal want_types;
-    returns (param_names, body_text)"""
+    returns (param_names, body_text).  With `cls`, only the body of that struct/class is searched (in-class inline
+    definitions that share name and signature with another class of the same file)."""
+    if cls:
+        src = class_body(src, cls, rel)
     pat = re.compile(r"(?<![\w:])%s\s*\(" % re.escape(qualname).replace(r"\:\:", r"\s*::\s*"))
     cands = []
     for m in pat.finditer(src):
@@ -129,6 +146,8 @@ def find_function(src, qualname, want_types, rel):
         if not m2:
             continue
         params = split_params(ptxt)
+        if [q.strip() for q in params] == ["void"]:
+            params = []
         names, types = [], []
         okp = True
         for p in params:
@@ -1287,7 +1306,7 @@ def indent(lines, n=1):
 # ------------------------------------------------------------------------------------------------- driver
 def translate_function(spec, f, repo):
     src = read_source(repo, f["file"])
-    names, body = find_function(src, f["name"], f["params"], f["file"])
+    names, body = find_function(src, f["name"], f["params"], f["file"], f["class"]) if f.get("class") else find_function(src, f["name"], f["params"], f["file"])
     toks = tokenize(body, f["name"])
     ps = spec.get("parser_class", Parser)(spec, f, repo, toks, None)     # a spec may subclass Parser to extend the fragment
     ps.taken.add(f["lean"])
@@ -1404,15 +1423,23 @@ def load_spec(name):
     return m.SPEC
 
 
-if __name__ == "__main__":
-    if len(sys.argv) < 2:
-        sys.stderr.write("usage: cxx2lean.py <spec-name> [repo] [out.lean]\n"); sys.exit(2)
-    repo = sys.argv[2] if len(sys.argv) > 2 else "/repo"
-    out = sys.argv[3] if len(sys.argv) > 3 else None
+def main(argv):
+    if len(argv) < 2:
+        sys.stderr.write("usage: cxx2lean.py <spec-name> [repo] [out.lean]\n"); return 2
+    repo = argv[2] if len(argv) > 2 else "/repo"
+    out = argv[3] if len(argv) > 3 else None
     try:
-        t = generate(load_spec(sys.argv[1]), repo, out)
+        t = generate(load_spec(argv[1]), repo, out)
         if not out:
             sys.stdout.write(t)
     except Refuse as ex:
         sys.stderr.write("REFUSE: %s\n" % ex)
-        sys.exit(3)
+        return 3
+    return 0
+
+
+if __name__ == "__main__":
+    # run through the importable module so that specs (`import cxx2lean`) raise the same Refuse class
+    sys.path.insert(0, os.path.dirname(os.path.abspath(__file__)))
+    import cxx2lean as _self
+    sys.exit(_self.main(sys.argv))
